@@ -54,10 +54,20 @@ func relPkg(path string) string {
 }
 
 // Load loads every package of the repository from its current working tree.
+//
+// The quick tier type-checks the repository's own packages from source and takes the types of its
+// dependencies from the compiler's export data (FastLoad); the thorough tier needs the syntax of the
+// dependencies as well (SSA bodies for VTA) and loads everything from source.
+var FastLoad bool
+
 func Load(root string) (*Prog, error) {
+	mode := packages.NeedName | packages.NeedFiles | packages.NeedCompiledGoFiles | packages.NeedSyntax |
+		packages.NeedTypes | packages.NeedTypesInfo | packages.NeedImports | packages.NeedModule
+	if !FastLoad {
+		mode |= packages.NeedDeps
+	}
 	cfg := &packages.Config{
-		Mode: packages.NeedName | packages.NeedFiles | packages.NeedCompiledGoFiles | packages.NeedSyntax |
-			packages.NeedTypes | packages.NeedTypesInfo | packages.NeedImports | packages.NeedDeps | packages.NeedModule,
+		Mode: mode,
 		Dir:   root,
 		Tests: false,
 		Env:   append(os.Environ(), "GOWORK=off"),
